@@ -20,7 +20,7 @@ Definition ref_shapes : list (string * string) := [
   ("Printf", "{ p.Send(printLineMessage{ messageBody: fmt.Sprintf(v1, v2...), }) }");
   ("handleCommands", "{ v1 := make(chan struct{}) go func() { defer close(v1) for { select { case <-p.ctx.Done(): return case v2 := <-v3: if v2 == nil { continue } go func() { if !p.startupOptions.has(withoutCatchPanics) { defer p.recoverFromPanic() } v4 := v2() p.Send(v4) }() } } }() return v1 }");
   ("channelHandlers.shutdown", "{ var v1 sync.WaitGroup for _, v2 := range h { v1.Add(1) go func(v3 chan struct{}) { <-v3 v1.Done() }(v2) } v1.Wait() }");
-  ("readLoop", "{ defer close(p.readLoopDone) v1 := readInputs(p.ctx, p.msgs, p.cancelReader) if !errors.Is(v1, io.EOF) && !errors.Is(v1, cancelreader.ErrCanceled) { select { case <-p.ctx.Done(): case p.errs <- v1: } } }");
+  ("readLoop", "{ defer close(v1) v2 := readInputs(p.ctx, p.msgs, v3) if !errors.Is(v2, io.EOF) && !errors.Is(v2, cancelreader.ErrCanceled) { select { case <-p.ctx.Done(): case p.errs <- v2: } } }");
   ("waitForReadLoop", "{ select { case <-p.readLoopDone: case <-time.After(500 * time.Millisecond): } }");
   ("exec", "{ if v1 := p.ReleaseTerminal(); v1 != nil { if v2 != nil { go p.Send(v2(v1)) } return } v3.SetStdin(p.input) v3.SetStdout(p.output) v3.SetStderr(os.Stderr) if v4 := v3.Run(); v4 != nil { _ = p.RestoreTerminal() if v2 != nil { go p.Send(v2(v4)) } return } v5 := p.RestoreTerminal() if v2 != nil { go p.Send(v2(v5)) } }");
   ("suspend", "{ if v1 := p.ReleaseTerminal(); v1 != nil { return } suspendProcess() _ = p.RestoreTerminal() go p.Send(ResumeMsg{}) }");
@@ -33,7 +33,7 @@ Definition ref_shapes : list (string * string) := [
   ("shutdown", "{ p.cancel() p.handlers.shutdown() if p.cancelReader != nil { if p.cancelReader.Cancel() { if !v1 { p.waitForReadLoop() } } _ = p.cancelReader.Close() } if p.renderer != nil { if v1 { p.renderer.kill() } else { p.renderer.stop() } } _ = p.restoreTerminalState() p.finishOnce.Do(func() { close(p.finished) }) }");
   ("recoverFromPanic", "{ if v1 := recover(); v1 != nil { p.handlePanic(v1) } }");
   ("handlePanic", "{ p.shutdown(true) fmt.Printf(""Caught panic:\n\n%s\n\nRestoring terminal...\n\n"", v1) debug.PrintStack() }");
-  ("initCancelReader", "{ if v1 && p.cancelReader != nil { p.cancelReader.Cancel() p.waitForReadLoop() } var v2 error p.cancelReader, v2 = newInputReader(p.input, p.mouseMode) if v2 != nil { return fmt.Errorf(""error creating cancelreader: %w"", v2) } p.readLoopDone = make(chan struct{}) go p.readLoop() return nil }");
+  ("initCancelReader", "{ if v1 && p.cancelReader != nil { p.cancelReader.Cancel() p.waitForReadLoop() } var v2 error p.cancelReader, v2 = newInputReader(p.input, p.mouseMode) if v2 != nil { return fmt.Errorf(""error creating cancelreader: %w"", v2) } v3 := make(chan struct{}) p.readLoopDone = v3 go p.readLoop(p.cancelReader, v3) return nil }");
   ("Every", "{ v1 := time.Now() v2 := v1.Truncate(v3).Add(v3).Sub(v1) v4 := time.NewTimer(v2) return func() Msg { v5 := <-v4.C v4.Stop() for len(v4.C) > 0 { <-v4.C } return v6(v5) } }");
   ("Tick", "{ v1 := time.NewTimer(v2) return func() Msg { v3 := <-v1.C v1.Stop() for len(v1.C) > 0 { <-v1.C } return v4(v3) } }");
   ("eventLoop:sequenceMsg", "go func() { for _, v1 := range v2 { if v1 == nil { continue } v3 := v1() if v4, v5 := v3.(BatchMsg); v5 { v6, _ := errgroup.WithContext(p.ctx) for _, v7 := range v4 { v8 := v7 v6.Go(func() error { p.Send(v8()) return nil }) } v6.Wait() continue } p.Send(v3) } }()");
